@@ -17,11 +17,11 @@ import Hifi.Gen.Efmt
   offsets and yields `panic` exactly when Rust's `str` indexing does (begin > end, end > len, not a
   char boundary).
 
-  Two quantities are inputs of the model (`Oracles`) because the code computes them through `f64`
-  or through the ET/TDB conversions: the TAI weekday `Epoch::weekday()` — only the `%w` token still
-  uses it — and `lexical_core::parse::<f64>` for the `%J` token.  Both tokens are outside property C19
-  (`%y %w %J` are left open); the driver supplies the oracles (Drive/Efmt.lean) and every theorem
-  holds for ANY oracle.  Everything the supported tokens print is exact integer arithmetic:
+  Two quantities are inputs of the model (`Oracles`) because the code computes them through `f64`:
+  `lexical_core::parse::<f64>` for parsing a `%J`, and the text `{}` of the f64 `day_of_year()` that `%J`
+  prints.  `%J` is not among the fourteen tokens property C19 names; the driver supplies the oracles
+  (Drive/Efmt.lean: for the printed `%J` any numeral the spec accepts that makes the whole text equal) and every
+  theorem holds for ANY oracle.  Everything else is exact integer arithmetic (`%w` too since fix a63ccdc):
   `%j` = `duration_in_year().total_nanoseconds() / NANOSECONDS_PER_DAY + 1` (fix 013aee2), `%A %a` =
   `Epoch::weekday_of_gregorian_date` (fix 5f24444).
 
@@ -218,11 +218,11 @@ def monthShort (mo : Int) : List Nat := Cal.strCodes (Gen.EFMT_MONTH_SHORT.getD 
 abbrev DoyV := Int × Dur
 
 structure Oracles where
-  /-- `Epoch::weekday()` (weekday of the TAI day count), 0 = Monday: used by `%w` only -/
-  weekdayTai : Ep → Int
   /-- `lexical_core::parse::<f64>(text)` = `days`; `none` = parse error, else
       (`days as u16`, `(days - f64::from(days as u16)) * Unit::Day`) -/
   lexDoy : List Nat → Option DoyV
+  /-- `{}` (`Display`) of the f64 `epoch.day_of_year()`: the text `%J` prints -/
+  doyText : Ep → List Nat
 
 /-- `Epoch::weekday_of_gregorian_date`: `from_tai_duration(duration + gregorian_epoch_offset()).weekday()`,
     i.e. the integer day count of the duration shifted to 1900-01-01 of the epoch's own scale, mod 7 -/
@@ -271,10 +271,11 @@ def tokText (O : Oracles) (it : Item) (y mo d h mi s ns : Int) (e : Ep) (off : D
     | .ok n => .ok (some (Cal.fmtInt 3 n))
     | .err => .err
     | .panic => .panic
-  | .DayOfYear => .ok (some [])       -- `{}` of an f64: text not modelled (the driver answers `unmodelled`)
+  | .DayOfYear => .ok (some (O.doyText e))   -- `{}` of the f64 `day_of_year()`: an oracle
   | .Weekday => .ok (some (weekdayLong (weekdayOfDate e)))
   | .WeekdayShort => .ok (some (weekdayShort (weekdayOfDate e)))
-  | .WeekdayDecimal => .ok (some (Cal.fmtInt 1 ((O.weekdayTai e + 1) % 7)))
+  -- `weekday_of_gregorian_date().to_c89_weekday()` (fix a63ccdc, D50): Sunday = 0
+  | .WeekdayDecimal => .ok (some (Cal.fmtInt 1 ((weekdayOfDate e + 1) % 7)))
   | .MonthName => .ok (some (monthLong mo))
   | .MonthNameShort => .ok (some (monthShort mo))
 
